@@ -99,6 +99,11 @@ def gen_interleaved(rng, n, maxdepth):
         clients = sorted({o[3] for o in c["ops"] if o[0] == HANDSHAKE} | {1})
         ops, k = [], 0
         for o in c["ops"]:
+            # the hooked PackageStreamer transports of the interleaving cases are not driven by the adapter
+            if o[0] == ADACCEPT:
+                o = [ACCEPT, o[1]]
+            elif o[0] == ADEND:
+                o = [CLOSE, o[1]]
             if o[0] in HOSTS and rng.random() < 0.5:
                 ops.append(rand_inj(rng, o, conns, clients))
                 k += 1
@@ -565,6 +570,8 @@ def run(ctx, only_cases=None):
         "stream object for an existing ConnID is reachable only through the raw registry API and is checked on the real code only (the model has one transport per connection id)",
         "lock contention: the harness evaluates its caller-side guards (transport open) before a call is queued, so pairs in which one call closes the "
         "transport the other one's guard looks at are not used; each ClientRegistry method is one critical section (side condition from go/ast)",
+        "cloud control is a recording double (only DisconnectClientIfMatch / EnsureClientOnline are reachable from the driven operations) with a per-history fault pattern; "
+        "adapter-driven connections block in Read until the harness ends them (EOF / error); packets for them are still injected through HandlePacket",
         "client ids are non-negative",
     ]
     if broken is not None:
